@@ -11,9 +11,17 @@ def conds_ruleSelector_getRules : List String := [
   ]
 
 def stmts_ruleSelector_getRules : List String := [
+   "{",
+   "if name == \"\" {",
+   "return append(rules, r.exact...)",
+   "}",
    "rules = append(rules, r.rules...)",
    "tag, name, _ := strings.Cut(name, \".\")",
-   "r = r.path[tag]"
+   "if r = r.path[tag]; r != nil {",
+   "return append(rules, r.getRules(name)...)",
+   "}",
+   "return rules",
+   "}"
   ]
 
 def conds_ruleSelector_setRules : List String := [
@@ -29,21 +37,36 @@ def conds_ruleSelector_setRules : List String := [
   ]
 
 def stmts_ruleSelector_setRules : List String := [
+   "{",
    "*r = ruleSelector{}",
-   "var set func(…)",
-   "set = func(…)",
-   "func-literal",
+   "var set func(r *ruleSelector, selector string)",
+   "for _, rule := range rules {",
+   "set = func(r *ruleSelector, selector string) {",
    "tag, name, _ := strings.Cut(selector, \".\")",
+   "switch tag {",
+   "case \"*\":",
+   "if name != \"\" {",
    "panic(fmt.Errorf(\"invalid selector %q\", rule.GetSelector()))",
+   "}",
    "r.rules = append(r.rules, rule)",
+   "case \"\":",
    "r.exact = append(r.exact, rule)",
+   "default:",
    "rs := r.path[tag]",
+   "if rs == nil {",
    "rs = &ruleSelector{}",
+   "}",
+   "if r.path == nil {",
    "r.path = make(map[string]*ruleSelector)",
+   "}",
    "r.path[tag] = rs",
    "r = rs",
    "set(r, name)",
-   "set(r, rule.GetSelector())"
+   "}",
+   "}",
+   "set(r, rule.GetSelector())",
+   "}",
+   "}"
   ]
 
 def conds_AddHealthz : List String := [
